@@ -69,10 +69,14 @@ Dom == [
   \* b2.proto (package acme.v1): messages B2 and B2Other
   b2_home |-> <<"b2.proto", "a.proto">>, b2_file |-> Existing,
   \* c.proto (its own package), d.proto (new file of acme.v1)
-  c_syntax |-> <<"proto3", "proto2">>, c_pkg |-> <<"acme.other.v1", "acme.other.v2">>, c_file |-> Existing,
+  c_syntax |-> <<"proto3", "proto2", "unspecified">>, c_pkg |-> <<"acme.other.v1", "acme.other.v2">>, c_file |-> Existing,
   \* the only message and the only enum of that package
   c_msg |-> Existing, c_enum |-> Existing,
-  d_file |-> Addable ]
+  d_file |-> Addable,
+  \* P.u: a 64-bit integer field with a default at the edge of its range
+  pu |-> <<"int64:-1", "uint64:18446744073709551615", "uint64:1", "int64:1">>,
+  \* 8*P+7 more files (P = parallelism of the machine), one message each; "edited": every one of them lost a field
+  fillers |-> <<"none", "present", "edited">> ]
 Slots == DOMAIN Dom
 Vals(s) == {Dom[s][i] : i \in 1..Len(Dom[s])}
 Base == [s \in Slots |-> Dom[s][1]]
@@ -80,7 +84,11 @@ ASSUME Emit => PrintT(<<"BASE", ToJson(Base)>>)
 
 \* ------------------------------------------------------------------ additive / cosmetic steps (C04)
 AdditiveSlots == {"z_state", "added_nested", "added_oneof", "m_res_new", "e_new", "added_enum", "added_msg", "r3_state", "s3_state", "d_file"}
-CompatStep(s, v1, v2) == v1 = v2 \/ s = "style" \/ (s \in AdditiveSlots /\ v1 = "absent" /\ v2 = "present")
+\* a file without a syntax statement is a proto2 file
+NormSyntax(v) == IF v = "unspecified" THEN "proto2" ELSE v
+CompatStep(s, v1, v2) == \/ v1 = v2 \/ s = "style" \/ (s \in AdditiveSlots /\ v1 = "absent" /\ v2 = "present")
+                         \/ (s = "c_syntax" /\ NormSyntax(v1) = NormSyntax(v2))
+                         \/ (s = "fillers" /\ v1 = "none" /\ v2 = "present")
 Compatible(p, c) == \A s \in Slots : CompatStep(s, p[s], c[s])
 
 \* ------------------------------------------------------------------ documented compatibility groups
@@ -102,6 +110,8 @@ WireBreaks(t1, t2) == t1 # t2 /\ IF WireGroup(t1) # WireGroup(t2) THEN ~(t1 = "s
                       ELSE IF IsEnum(t1) THEN ~EnumCompatible(t1, t2) ELSE IsMsg(t1)
 WireJsonBreaks(t1, t2) == t1 # t2 /\ IF WireJsonGroup(t1) # WireJsonGroup(t2) THEN TRUE
                           ELSE IF IsEnum(t1) THEN ~EnumCompatible(t1, t2) ELSE IsMsg(t1)
+PuType(v) == IF v \in {"int64:-1", "int64:1"} THEN "int64" ELSE "uint64"
+PuDefault(v) == CASE v = "int64:-1" -> "-1" [] v = "uint64:18446744073709551615" -> "18446744073709551615" [] OTHER -> "1"
 CardWire(k) == CASE k \in {"implicit", "optional"} -> 1 [] k = "required" -> 2 [] k = "repeated" -> 3
 CardWireJson(k) == CardWire(k)
 
@@ -244,7 +254,16 @@ Cons(s, p, c) ==
                           \cup (IF p.b2_home = "b2.proto" /\ c.b2_home = "b2.proto"
                                 THEN {A("PACKAGE_MESSAGE_NO_DELETE", {Q("B2"), Q("acme.v1")}, "none")} ELSE {})
                         ELSE {}
-    [] s = "c_syntax" -> {A("FILE_SAME_SYNTAX", {Q(v1), Q(v2)}, "c.proto#syntax")}
+    [] s = "c_syntax" -> IF NormSyntax(v1) = NormSyntax(v2) THEN {}
+                         ELSE {A("FILE_SAME_SYNTAX", {Q(NormSyntax(v1)), Q(NormSyntax(v2))}, IF v2 = "unspecified" THEN "c.proto#file" ELSE "c.proto#syntax")}
+    [] s = "pu" -> TypeCons("6", "P", "b.proto#field:P.6", PuType(v1), PuType(v2))
+                   \cup (IF PuDefault(v1) # PuDefault(v2) THEN {A("FIELD_SAME_DEFAULT", {Q("6"), Q("P")}, "b.proto#field:P.6")} ELSE {})
+    \* one annotation per filler file; the harness expands the anchor over all of them
+    [] s = "fillers" -> IF v1 = "present" /\ v2 = "edited"
+                        THEN {A("FIELD_NO_DELETE", {Q("2"), Q("F")}, "EACH-FILLER#message:F"),
+                              A("FIELD_NO_DELETE_UNLESS_NUMBER_RESERVED", {Q("2"), Q("F")}, "EACH-FILLER#message:F"),
+                              A("FIELD_NO_DELETE_UNLESS_NAME_RESERVED", {Q("gone"), Q("F")}, "EACH-FILLER#message:F")}
+                        ELSE {}
     [] s = "c_pkg" -> {A("FILE_SAME_PACKAGE", {Q(v1), Q(v2)}, "c.proto#package"),
                        A("PACKAGE_NO_DELETE", {Q(v1)}, "none")}
     \* the package keeps existing; it merely has no message / no enum any more
